@@ -684,9 +684,23 @@ class PVLParser(object):
         ``set`` objects are non-hashable, they cannot be members of a set,
         however, ``frozenset`` objects can.
         """
-        return frozenset(
-            self._parse_set_seq(self.grammar.set_delimiters, tokens)
+        return self._make_set(
+            frozenset,
+            self._parse_set_seq(self.grammar.set_delimiters, tokens),
+            tokens
         )
+
+    @staticmethod
+    def _make_set(set_type, elements: list, tokens: abc.Generator):
+        # A Sequence (a Python list) cannot be a member of a Python set.
+        try:
+            return set_type(elements)
+        except TypeError:
+            tokens.throw(
+                ValueError,
+                "A Set that contains a Sequence cannot be represented: "
+                f"{elements}"
+            )
 
     def parse_sequence(self, tokens: abc.Generator) -> list:
         """Parses a PVL Sequence.
@@ -856,7 +870,11 @@ class ODLParser(PVLParser):
         can be represented as a Python ``set`` (unlike PVL Sets,
         which must be represented as a Python ``frozenset`` objects).
         """
-        return set(self._parse_set_seq(self.grammar.set_delimiters, tokens))
+        return self._make_set(
+            set,
+            self._parse_set_seq(self.grammar.set_delimiters, tokens),
+            tokens
+        )
 
     def parse_units(self, value, tokens: abc.Generator) -> str:
         """Extends the parent function, since ODL only allows units
